@@ -100,30 +100,31 @@ type c17rDial struct {
 }
 
 type c17rScenario struct {
-	c       *ctx
-	rng     *rand.Rand
-	relay   *trzsz.TrzszRelay
-	uid     string // as the relay knows it (it rewrites "...00" to "...20")
-	sport   int
-	rport   int
-	ln      net.Listener // the harness's server behind the connector
-	peers   []*c17Peer   // clients on the relay's port
-	kinds   []int
-	plans   []int // server behaviour planned for client i (used if the connector is called for it)
-	srvs    map[int]*c17Peer // server-side ends, by client index (peer.conn = the accepted connection)
-	wraps   map[int]*c17rCountConn
-	dialCh  chan *c17rDial
-	mu      sync.Mutex
-	evs     []string
-	desc    []string
-	adopted int
-	reset   bool
-	confirm int
-	dW      *io.PipeWriter
-	aW      *io.PipeWriter
-	toCli   *verifBuf
-	toSrv   *verifBuf
-	closers []io.Closer
+	c           *ctx
+	rng         *rand.Rand
+	relay       *trzsz.TrzszRelay
+	uid         string // as the relay knows it (it rewrites "...00" to "...20")
+	sport       int
+	rport       int
+	ln          net.Listener // the harness's server behind the connector
+	peers       []*c17Peer   // clients on the relay's port
+	kinds       []int
+	plans       []int            // server behaviour planned for client i (used if the connector is called for it)
+	srvs        map[int]*c17Peer // server-side ends, by client index (peer.conn = the accepted connection)
+	wraps       map[int]*c17rCountConn
+	dialCh      chan *c17rDial
+	mu          sync.Mutex
+	evs         []string
+	desc        []string
+	adopted     int
+	everAdopted map[int]bool
+	reset       bool
+	confirm     int
+	dW          *io.PipeWriter
+	aW          *io.PipeWriter
+	toCli       *verifBuf
+	toSrv       *verifBuf
+	closers     []io.Closer
 }
 
 type verifBuf struct {
@@ -179,7 +180,7 @@ func c17rStart(c *ctx, rng *rand.Rand) (*c17rScenario, string) {
 	if err != nil {
 		return nil, "listen-failed"
 	}
-	sc := &c17rScenario{c: c, rng: rng, ln: ln, sport: ln.Addr().(*net.TCPAddr).Port, srvs: map[int]*c17Peer{}, wraps: map[int]*c17rCountConn{},
+	sc := &c17rScenario{c: c, rng: rng, ln: ln, sport: ln.Addr().(*net.TCPAddr).Port, srvs: map[int]*c17Peer{}, wraps: map[int]*c17rCountConn{}, everAdopted: map[int]bool{},
 		dialCh: make(chan *c17rDial, 4), adopted: -1, toCli: &verifBuf{}, toSrv: &verifBuf{}}
 	aR, aW := io.Pipe()
 	bR, bW := io.Pipe()
@@ -255,6 +256,7 @@ func (sc *c17rScenario) refreshAdopted() {
 	for _, p := range sc.peers {
 		if p.local == remote {
 			sc.adopted = p.idx
+			sc.everAdopted[p.idx] = true
 		}
 	}
 }
@@ -457,6 +459,11 @@ func (sc *c17rScenario) writeClient(p *c17Peer, b []byte) {
 		})
 		before := sc.adopted
 		sc.refreshAdopted()
+		if before >= 0 && sc.adopted != before {
+			// no reset in between (a reset refreshes sc.adopted itself)
+			sc.c.violate("tunnel-relay:second-adoption", "tunnelRelay held a pair and now holds another one although the relay was not reset in between",
+				fmt.Sprintf("was %d, now %d :: %s", before, sc.adopted, sc.describe()))
+		}
 		if sc.adopted == p.idx && before != p.idx {
 			sc.waitListenerClosed()
 		} else if sp := sc.srvs[p.idx]; sp != nil {
@@ -550,6 +557,10 @@ func (sc *c17rScenario) oracles(tag string) {
 		if p.idx == sc.adopted && !(auth && srvOK) {
 			sc.c.violate("tunnel-relay:unauthenticated-adopted:"+kind, "tunnelRelay holds a pair that is not authenticated on both sides",
 				fmt.Sprintf("%s conn=%d server plan=%s :: %s", tag, p.idx, c17rSrvName[sc.plans[p.idx]], sc.describe()))
+		}
+		if len(g) > 0 && p.idx != sc.adopted && !sc.everAdopted[p.idx] && !closed && !p.selfEnd {
+			sc.c.violate("tunnel-relay:losing-pair-not-closed", "a pair that was answered but never adopted has not been closed by the relay",
+				fmt.Sprintf("%s conn=%d :: %s", tag, p.idx, sc.describe()))
 		}
 		if !auth && len(p.sent) > 0 && !closed && !p.selfEnd && !p.refused {
 			sc.c.violate("tunnel-relay:intruder-not-closed:"+kind, "a client that presented something else than the hello was not closed",
@@ -817,7 +828,7 @@ func c17rRunE2E(ec *c17rE2ECase, work string) {
 	os.WriteFile(srcFile, content, 0644)
 	lc := &ctx{rng: rng, tier: "quick", stats: map[string]int{}, seen: map[string]bool{}}
 	ec.stats = lc.stats
-	sc := &c17rScenario{c: lc, rng: rng, srvs: map[int]*c17Peer{}, wraps: map[int]*c17rCountConn{}, adopted: -1}
+	sc := &c17rScenario{c: lc, rng: rng, srvs: map[int]*c17Peer{}, wraps: map[int]*c17rCountConn{}, everAdopted: map[int]bool{}, adopted: -1}
 	var once sync.Once
 	var seen []byte
 	var genuine atomic.Int32
